@@ -465,6 +465,10 @@ func (w *World) regexUFDecls(text string) string {
 	sortStrings(lits)
 	for _, lit := range lits {
 		id := w.regexIDs[lit]
+		if strings.Contains(text, "rereplace_"+id+" ") || strings.Contains(text, "rereplacelit_"+id+" ") {
+			fmt.Fprintf(&b, "(declare-fun rereplace_%s (Str Str) Str)\n(declare-fun rereplacelit_%s (Str Str) Str)\n", id, id)
+			fmt.Fprintf(&b, "(assert (forall ((s Str) (t Str)) (! (=> (and (wfstr s) (wfstr t)) (wfstr (rereplace_%s s t))) :pattern ((rereplace_%s s t)))))\n", id, id)
+		}
 		if !strings.Contains(text, "rematch_"+id) && !strings.Contains(text, "regroup_"+id) {
 			continue
 		}
@@ -543,6 +547,14 @@ func (fc *FnCtx) trRegexpMethod(st *State, call *ast.CallExpr, fn *types.Func, r
 		b := fc.declare("re_b", SInt)
 		st.addAssume(implies(m, ri.matchFacts(args[0].T, a, b)))
 		return []Val{boolVal(m)}, true
+	case "ReplaceAllString", "ReplaceAllLiteralString":
+		// the result is an uninterpreted function of (subject, template) for this pattern
+		id := fc.w.regexUF(lit)
+		kind := "rereplace_"
+		if fn.Name() == "ReplaceAllLiteralString" {
+			kind = "rereplacelit_"
+		}
+		return []Val{{T: "(" + kind + id + " " + args[0].T + " " + args[1].T + ")", S: SStr}}, true
 	case "FindStringIndex", "FindIndex":
 		loc := fc.freshVal(st, "re_loc", SIL, nil)
 		a := "(select (ints " + loc.T + ") 0)"
